@@ -233,6 +233,9 @@ pub struct ExecResult {
     pub outcome: OutcomeRec,
     pub io: IoRec,
     pub wall_us: u64,
+    /// Files the run left in its current directory.
+    #[serde(default)]
+    pub cwd_files: Vec<String>,
 }
 
 impl ExecResult {
@@ -397,6 +400,12 @@ pub fn exec(spec: &ExecSpec, wd: &WorkDir) -> ExecResult {
     }
     if pid == 0 {
         unsafe { libc::close(fds[0]) };
+        // the simulated process runs in its own scratch directory: anything it drops into the
+        // current directory (the `custom_checks.toml` template of -g) is observable and cleaned up
+        let cwd = wd.p("cwd");
+        let _ = std::fs::remove_dir_all(&cwd);
+        let _ = std::fs::create_dir_all(&cwd);
+        let _ = std::env::set_current_dir(&cwd);
         let res = crate::child::child_main(spec, &argv, input_id);
         let bytes = serde_json::to_vec(&res).unwrap_or_default();
         crate::interpose::write_raw_fd(fds[1], &bytes);
@@ -481,6 +490,13 @@ pub fn exec(spec: &ExecSpec, wd: &WorkDir) -> ExecResult {
         }
     };
     res.out_file = std::fs::read(&p.out).ok();
+    res.cwd_files = std::fs::read_dir(wd.p("cwd"))
+        .map(|rd| {
+            let mut v: Vec<String> = rd.filter_map(|e| e.ok()).map(|e| e.file_name().to_string_lossy().into_owned()).collect();
+            v.sort();
+            v
+        })
+        .unwrap_or_default();
     res.stats_file = std::fs::read(&p.stats).ok();
     res.wall_us = wall_us;
     res
@@ -498,6 +514,7 @@ pub fn empty_result() -> ExecResult {
         outcome: OutcomeRec::default(),
         io: IoRec::default(),
         wall_us: 0,
+        cwd_files: Vec::new(),
     }
 }
 
